@@ -95,7 +95,7 @@ def dict_match(d1, d2, require_presence=False, rel_tol=1e-9, abs_tol=0.0):
 
 	# Check d2 against d1.
 	for key in d2.keys():
-		if key in d2:
+		if key in d1:
 			# We already checked in this case.
 			pass
 		else:
